@@ -28,7 +28,7 @@ class ClsOracle(object):
         if 'C01' in case['want']:
             try:
                 obj, _ = cls.parse_immutable(unhx(case['data']))
-                for prop, key, msg in clsops.check_object(obj, suffix=b'\x00\x17')[0]:
+                for prop, key, msg in clsops.check_object(obj, suffix=b'\x00\x17' if case.get('framing') else b'')[0]:
                     out.append((key, msg))
             except Exception:  # pylint: disable=broad-except
                 pass
@@ -146,7 +146,7 @@ def class_property_run(run, driver_ok, want, per_class, n_mut, truncations=0, su
             run.count('compose_errors', '{}:{}'.format(name, type(exc).__name__))
             continue
         if 'C01' in want:
-            bad, _ = clsops.check_object(obj, suffix=b'\x00\x17')
+            bad, _ = clsops.check_object(obj, suffix=b'\x00\x17' if framing else b'')
             for prop, key, msg in bad:
                 run.finding(key, msg, {'kind': 'cls', 'cls': name, 'data': hx(b), 'want': list(want), 'framing': framing})
         variants = [b]
